@@ -5,8 +5,8 @@ import random
 from dbuswire import build_message, SIGNAL, METHOD_CALL, F_PATH, F_INTERFACE, F_MEMBER, F_DESTINATION, F_ERROR_NAME, \
     F_REPLY_SERIAL, ERROR, F_SENDER
 
-NAME_ALPHA = [b'a', b'Z', b'0', b'_', b'-', b'.', b':', b'/', b'\x00', b'\x80', b' ']
-PATH_ALPHA = [b'a', b'0', b'_', b'/', b'-', b'.', b'\x00', b'\x80']
+NAME_ALPHA = [b'a', b'Z', b'0', b'_', b'-', b'.', b':', b'/', b'\x00', b'\x80', b' ', b'\xc1', b'\xfa']
+PATH_ALPHA = [b'a', b'0', b'_', b'/', b'-', b'.', b'\x00', b'\x80', b'\xc1', b'\xfa']
 SIG_ALPHA = [b'y', b'i', b's', b'a', b'v', b'(', b')', b'{', b'}', b'h', b'z']
 UTF8_CLASSES = [0x00, 0x41, 0x7f, 0x80, 0x8f, 0x90, 0x9f, 0xa0, 0xbf, 0xc0, 0xc1, 0xc2, 0xdf, 0xe0, 0xe1, 0xec, 0xed, 0xee,
                 0xef, 0xf0, 0xf1, 0xf3, 0xf4, 0xf5, 0xff]
@@ -98,6 +98,13 @@ def cases(rng, quick=True):
                 s = b'a' * pos + e + b'a' * max(0, ln - pos - len(e))
                 out.append(case('utf8', s))
                 out.append(case('utf8', s[:-1]))          # truncated last char or shorter ascii
+    # every byte value at the start, in the middle and at the end of an otherwise valid name of each grammar
+    for g, pre, post in (('bus', b'a.b', b'c'), ('ifc', b'a.b', b'c'), ('err', b'a.b', b'c'), ('mem', b'ab', b'c'), ('path', b'/ab', b'c'),
+                         ('bus', b':1.b', b'2'), ('busns', b'a.b', b'c')):
+        for v in range(256):
+            out.append(case(g, pre + bytes([v]) + post))
+            out.append(case(g, pre + bytes([v])))
+            out.append(case(g, bytes([v]) + pre[1:] + post) if g != 'path' else case(g, b'/' + bytes([v]) + post))
     # length limits
     for g, mk in (('bus', lambda n: b'a.' + b'b' * (n - 2)), ('ifc', lambda n: b'a.' + b'b' * (n - 2)),
                   ('mem', lambda n: b'm' * n), ('err', lambda n: b'a.' + b'b' * (n - 2)),
